@@ -31,6 +31,8 @@ var fieldKinds = []struct{ name, typ string }{
 	{"self-copying-interface", "Copier"},
 	// a by-value chain whose MIDDLE struct has no container of its own: the containers sit one struct further down
 	{"plain-struct-wrapping-a-struct-with-containers", "Wrap"},
+	// unexported fields whose names start with an underscore (not the blank identifier)
+	{"struct-with-underscore-prefixed-field-names", "Under"},
 }
 
 var aux = map[string]string{
@@ -38,6 +40,7 @@ var aux = map[string]string{
 	"Dep":    "// Dep is reached only as a dependency.\ntype Dep struct {\n\tS []string\n\tK string\n}\n",
 	"Deep":   "// Deep nests three levels.\n// +gengo:deepcopy\ntype Deep struct {\n\tMid Mid\n\tTop []int\n}\n\ntype Mid struct {\n\tLeaf Leaf\n\tL    []int\n}\n\ntype Leaf struct {\n\tM map[string]int\n\tV float64\n}\n",
 	"Wrap":   "// Wrap has no slice or map itself.\ntype Wrap struct {\n\tID    int\n\tInner Inner\n\tName  string\n}\n\n// Inner holds the containers.\ntype Inner struct {\n\tTags  []string\n\tAttrs map[string]int\n}\n",
+	"Under":  "// Under has unexported fields with unusual names.\ntype Under struct {\n\t_index map[string]int\n\t_order []string\n\tX      int\n\t_rev   int\n}\n",
 	"MyInt":  "type MyInt int\n",
 	"MyMap":  "type MyMap map[string]string\n",
 	"Iface":  "type Iface interface {\n\tM() string\n}\n\ntype impl string\n\nfunc (i impl) M() string { return string(i) }\n",
@@ -63,7 +66,7 @@ func (p Prog) userMethods(pkg string, need map[string]bool) string {
 	if p.Generic {
 		recv = []string{"A[T]"}
 	}
-	for _, k := range []string{"Sub", "Dep", "Deep", "MyInt", "MyMap", "Wrap"} {
+	for _, k := range []string{"Sub", "Dep", "Deep", "MyInt", "MyMap", "Wrap", "Under"} {
 		if need[k] {
 			recv = append(recv, k)
 		}
@@ -264,7 +267,7 @@ func checkProgs(c *core.Ctx, progs []Prog) {
 			for _, f := range p.Fields {
 				var ft string
 				switch fieldKinds[f].typ {
-				case "Sub", "Dep", "Deep", "MyInt", "MyMap", "Wrap":
+				case "Sub", "Dep", "Deep", "MyInt", "MyMap", "Wrap", "Under":
 					ft = name + "." + fieldKinds[f].typ
 				case "G[int]", "UG[string]":
 					ft = name + "." + fieldKinds[f].typ
